@@ -320,9 +320,13 @@ class RedshiftBinningFactory:
         # units, custom cosmologies: plain Mpc values), as required for inversion
         comov_edges = np.linspace(comov_min, comov_cmax, num_bins + 1)
 
-        edges = z_at_value(self.cosmology.comoving_distance, comov_edges)
-        edges = np.array(getattr(edges, "value", edges), dtype=np.float64)
-        edges[0] = min  # the inversion is only accurate to numerical precision
+        # the outer edges are given, only the inner edges require the inversion
+        # (which is undefined at redshift zero)
+        edges = np.empty(num_bins + 1, dtype=np.float64)
+        if num_bins > 1:
+            inner = z_at_value(self.cosmology.comoving_distance, comov_edges[1:-1])
+            edges[1:-1] = getattr(inner, "value", inner)
+        edges[0] = min
         edges[-1] = max
         return Binning(edges, closed=closed)
 
